@@ -518,7 +518,7 @@ Step(s, e) ==
                 s.raw.dirs[a].ch[j] = seg.c =>
                    \A i \in ((j - 1) * per + seg.o \div 32 + 1)..((j - 1) * per + (seg.o + seg.l - 1) \div 32 + 1) : slotOk(a, i)
           ELSE TRUE
-       c11o == Tag("C11.owner", \A i \in 1..Len(e.w) : e.w[i].r = "clu" =>
+       c11o == Tag("C11.owner", s.atime \/ \A i \in 1..Len(e.w) : e.w[i].r = "clu" =>
                        (IsFreeC(s.D.F, e.w[i].c) \/ e.w[i].c \in okClusters \/ ~InRangeC(s.D.F, e.w[i].c)))
                \cup Tag("C11.dir_slots", e.op = "mount" \/ Len(s.raw.dirs) = 0 \/ s.atime \/ \A i \in 1..Len(e.w) : segSlotsOk(e.w[i]))
        v == os.v \cup st3.v \cup tv \cup c10 \cup c11 \cup c11o \cup c12 \cup c13 \cup c05 \cup c08
